@@ -1086,6 +1086,16 @@ static void tecmpEnumerate(const TTask& t, bool thorough, Fn fn)
                 ref::put8(p, 50); ref::put8(p, 0); ref::put32(p, 4096); ref::put64(p, 0x1111222233334444ull); ref::put8(p, 12); ref::put8(p, 34); ref::put8(p, 45);
                 ref::put8(p, 46);
                 fn(ref::tecmpFrame(h, p));
+                // every value of every one-byte code of the generic part (vendor id, capture-module version, DEVICE TYPE, reserved) and
+                // of the other single bytes of the status header: whatever is looked up in a table is looked up for all 256 values
+                if (k == 0 && sn == serials[1])
+                    for (size_t pos : {(size_t) 0, (size_t) 1, (size_t) 2, (size_t) 3, (size_t) 12, (size_t) 18, (size_t) 19, (size_t) 32, (size_t) 33, (size_t) 34, (size_t) 35})
+                        for (int val = 0; val < 256; ++val)
+                        {
+                            Bytes q = p;
+                            q[pos] = (uint8_t) val;
+                            fn(ref::tecmpFrame(h, q));
+                        }
                 if (k == 0)
                     declVariants(ref::tecmpFrame(h, p));
                 if (k == 0)
@@ -1146,6 +1156,18 @@ static void tecmpEnumerate(const TTask& t, bool thorough, Fn fn)
                     fn(ref::tecmpFrame(h, Bytes(p.begin(), p.begin() + cut)));
         }
     }
+    else if (t.part == 'Y')   // data messages: EVERY data type with a zero high byte (and the same with high byte 1) x payloads that parse as CAN and as LIN
+    {
+        for (int hi = 0; hi < 2; ++hi)
+            for (int lo = 0; lo < 256; ++lo)
+                for (int shape = 0; shape < 3; ++shape)
+                {
+                    ref::TecmpHdr h = hdr(lo % 27);
+                    h.msgType = ref::TM_DATA; h.dataType = (uint16_t) ((hi << 8) | lo);
+                    Bytes pl = shape == 0 ? ref::tecmpCanPayload(0x321, 4, patt(4, 1), 0) : (shape == 1 ? ref::tecmpCanPayload(0x321, 12, patt(12, 2), 3) : ref::tecmpLinPayload(0x2A, 3, patt(3, 3), true, 0x5C));
+                    fn(ref::tecmpFrame(h, pl));
+                }
+    }
     else if (t.part == 'X')   // message type t.a (all 256) x data types x payload lengths x length byte
     {
         // defined types, undefined ones, and values whose LOW byte is a supported type while the high byte is not zero
@@ -1203,6 +1225,7 @@ static std::vector<TTask> tecmpTasks(bool thorough, bool forSafety)
         t.push_back({'L', n, 0});
     for (int n : {0, 1, 4, 8, 12, 64})
         t.push_back({'E', n, 0});
+    t.push_back({'Y', 0, 0});
     t.push_back({'M', 0, 0});
     std::vector<int> counts = {0, 1, 2, 9, 40};
     if (thorough)
@@ -2055,7 +2078,7 @@ int main(int argc, char** argv)
             w.add(mc::C_STATES, 1);
         });
         auto tt = tecmpTasks(thorough, false);
-        for (char part : {'C', 'L', 'E', 'M', 'B', 'X', 'D'})
+        for (char part : {'C', 'L', 'E', 'Y', 'M', 'B', 'X', 'D'})
         {
             std::vector<TTask> ts;
             for (auto& t : tt)
@@ -2063,7 +2086,7 @@ int main(int argc, char** argv)
                     ts.push_back(t);
             if (ts.empty())
                 continue;
-            const char* nm = part == 'C' ? "CAN / CAN-FD" : part == 'E' ? "CAN / CAN-FD / LIN data message followed by further bytes (second and third entries, lying and empty entry headers, header-like and zero trails)" : (part == 'L' ? "LIN" : (part == 'M' ? "capture-module status" : (part == 'B' ? "bus status" : (part == 'X' ? "all message types x data types x lengths" : "all 65536 data types"))));
+            const char* nm = part == 'C' ? "CAN / CAN-FD" : part == 'Y' ? "data messages of every data type 0x0000..0x01FF with payloads that parse as CAN / CAN-FD / LIN" : part == 'E' ? "CAN / CAN-FD / LIN data message followed by further bytes (second and third entries, lying and empty entry headers, header-like and zero trails)" : (part == 'L' ? "LIN" : (part == 'M' ? "capture-module status" : (part == 'B' ? "bus status" : (part == 'X' ? "all message types x data types x lengths" : "all 65536 data types"))));
             run.round(nm, ts.size(), [&, ts](W& w, uint64_t o) {
                 tecmpEnumerate(ts[o], thorough, [&](const Bytes& f) {
                     auto desc = [&] { return "f=" + mc::hex(f); };
